@@ -360,6 +360,12 @@ def stamp_lines(s, lines):
             fn_ = "$f%d" % fi
             params.append("%s:ident" % fn_)
             args.append(m.group(2))
+            if re.search(r"\bR[XON]\d+\b", ty) and h("crate_path", s["path"], m.group(2)) % 2 == 0:
+                # helper types of this module spelled the way exported macros spell them: `$crate::path::T`
+                ty = re.sub(r"\b(R[XON]\d+)\b", lambda mm: "$crate::%s::%s" % (s["mod"].replace("()", ""), mm.group(1)), ty)
+                body.append("%s%s: %s," % (m.group(1), fn_, ty))
+                fi += 1
+                continue
             mt = re.match(r"^(\[?)(\w+)((?:; \d+\])?)$", ty)
             if mt:
                 tn = "$t%d" % fi
